@@ -77,6 +77,15 @@ Check(r, idx) ==
                                                                              /\ \/ w.op \in {"set", "compute", "invalidate", "computeinv"}
                                                                                 \/ /\ w.op = "invalidateAll"
                                                                                    /\ \E a \in aevs : a.k = 1 /\ a.err = "Invalidation" /\ a.seq > w.seq /\ a.seq < y.seq}
+        \* a plain cache (no bound, no expiry, no handlers: sc.bare = 1): no event tells that an InvalidateAll removed the key, but with the key
+        \* preloaded and no other kind of writer it was present when the call started; a load that had started before the call and is
+        \* installed after the call returned must not leave its value behind
+        onlyAll == \A w \in wcalls : w.op = "invalidateAll"
+        staleAll == {x \in finRuns(1) : /\ r.sc.bare = 1 /\ r.sc.preload = 1 /\ onlyAll /\ r.sc.inloader = <<>>
+                                         /\ \E w \in wcalls : /\ w.seq > enterSeq(x)
+                                                               /\ \E y \in wrets : y.g = w.g /\ y.seq < installSeq(x)
+                                         \* (no other loader run that could have re-created the entry before this one was installed)
+                                         /\ \A z \in exits : z.k = 1 => z.run = x.run \/ enterSeq(z) > installSeq(x)}
         wretSeq(w) == LET c == {y \in wrets : y.g = w.g /\ y.seq > w.seq} IN IF c = {} THEN 1000000 ELSE (CHOOSE y \in c : \A z \in c : y.seq <= z.seq).seq
         \* a write made while a load was in flight must survive that load's NOT-FOUND answer as well
         nfRuns == {x \in exits : x.k = 1 /\ x.err = "nf"}
@@ -142,6 +151,7 @@ Check(r, idx) ==
     \o (IF joinBad # {} THEN <<F(idx, "C08.notfound_without_loader", joinBad)>> ELSE <<>>)
     \o (IF across # {} THEN <<F(idx, "C09.install_across_invalidation", <<across, r.final>>)>> ELSE <<>>)
     \o (IF lostToNf # {} THEN <<F(idx, "C09.write_removed_by_notfound_load", <<lostToNf, r.final>>)>> ELSE <<>>)
+    \o (IF staleAll # {} THEN <<F(idx, "C09.stale_install_after_invalidateAll", <<staleAll, r.final>>)>> ELSE <<>>)
     \o (IF stale # {} THEN <<F(idx, "C09.stale_install", <<stale, r.final>>)>> ELSE <<>>)
     \o (IF \E w \in lastW : w.k = 1 /\ fin(1) # {w.v} THEN <<F(idx, "C09.write_lost", <<lastW, r.final>>)>> ELSE <<>>)
     \o (IF fin(1) \ (loadedVals(1) \cup writtenVals(1)) # {} THEN <<F(idx, "C09.invented_final", r.final)>> ELSE <<>>)
